@@ -130,9 +130,14 @@ def run(chk, tier):
     if len(ms) != 1:
         raise facts.MissingAnchor("is_constructive: match over AttributeAction")
     tab, arms = H.enum_table(ms[0], variants, AA)
+    # the predicate may be written positively (`matches!(self, A | B)`) or negatively (`!matches!(self, X | Y)`): evaluate it per variant
+    negations = 0
+    for x, anc in H.walk_anc(h["body"]):
+        if x is ms[0]:
+            negations = sum(1 for a in anc if H.is_node(a) and H.kind(a) == "un" and a[2] == "Not")
     for v in variants:
         l = H.lit(arms[tab[v][0]][2]) if tab[v] else None
-        got = l is not None and l[1] == "true"
+        got = (l is not None and l[1] == "true") != (negations % 2 == 1) if l is not None else None
         chk.expect(got == (v in CONSTRUCTIVE), "constructive", "is_constructive", v, v in CONSTRUCTIVE, got, loc=C.fn_loc(h))
     chk.expect(CONSTRUCTIVE <= set(variants), "constructive", AA, "documented-families-exist", sorted(CONSTRUCTIVE), sorted(variants))
 
